@@ -1,6 +1,7 @@
 package props
 
 import (
+	"fmt"
 	"go/ast"
 	"go/types"
 	"strings"
@@ -116,7 +117,7 @@ func c21DiffNamesTheRightNode(p *core.Program, r *core.Report) {
 		}
 		n++
 		var bad []string
-		nAssign := 0
+		nAssign, untraced := 0, 0
 		ast.Inspect(blk, func(k ast.Node) bool {
 			a2, ok := k.(*ast.AssignStmt)
 			if !ok || len(a2.Lhs) != len(a2.Rhs) {
@@ -125,12 +126,12 @@ func c21DiffNamesTheRightNode(p *core.Program, r *core.Report) {
 			for i, l := range a2.Lhs {
 				if id, ok := ast.Unparen(l).(*ast.Ident); ok && info.ObjectOf(id) == idRes {
 					nAssign++
-					if src := sourceOf(a2.Rhs[i]); src != want {
-						from := "an expression that is not a node of a cluster's list"
-						if src != nil {
-							from = "a node of " + src.Name() + ".nodes"
-						}
-						bad = append(bad, p.Pos(a2.Pos())+": "+types.ExprString(a2.Rhs[i])+" is "+from)
+					// only a source that is recognisably the other cluster's list is reported; an id that
+					// reaches the result some other way (a set of ids, a helper) is not traced
+					if src := sourceOf(a2.Rhs[i]); src != nil && src != want {
+						bad = append(bad, p.Pos(a2.Pos())+": "+types.ExprString(a2.Rhs[i])+" is a node of "+src.Name()+".nodes")
+					} else if src == nil {
+						untraced++
 					}
 				}
 			}
@@ -143,7 +144,7 @@ func c21DiffNamesTheRightNode(p *core.Program, r *core.Report) {
 		case len(bad) > 0:
 			r.Violate("R6", construct, p.Pos(as.Pos()), strings.Join(dedupe(bad), "; ")+" -- the node that is being "+what+"d is a member of "+want.Name()+".nodes; naming another node makes fragSources exclude a surviving owner from the sources and keep the leaving node as one")
 		default:
-			r.HoldAt("R6", construct, p.Pos(as.Pos()), "the id is read out of "+want.Name()+".nodes")
+			r.HoldAt("R6", construct, p.Pos(as.Pos()), fmt.Sprintf("no assignment reads the id out of the other cluster's node list (%d of %d assignments read it from %s.nodes)", nAssign-untraced, nAssign, want.Name()))
 		}
 		return true
 	})
